@@ -43,6 +43,7 @@ cpp2coq.SCHEMA["lfuda_cache"] = dict(
     # float m_dynamic_age_ratio = dl_rnum / 2^dl_rk
     ratio=("m_dynamic_age_ratio", "dl_rnum", "dl_rk"),
     clock=True,
+    ctor=True, cells="dl_cells", elem_default="{| dc_keyed := None; dc_lfu := None; dc_age := 0%Z; dc_val := None |}",
     # the only loop (do_dynamic_age) re-files one node of the list per iteration, each at most once
     # (0 <= tick); one more round for the test that ends it.  Running out is reported as UB.
     fuel="(S (List.length (dl_list %(s)s)))",
@@ -63,6 +64,22 @@ CELL = '"list node"'
 
 
 class Ext(cpp2coq.Tr):
+    # ---- constructor: the float ratio is the dyadic rnum / 2^rk of the literal machine (two nat parameters)
+    def ctor_param(self, pn, t, env, params):
+        if pn == "dynamic_age_ratio" and t == "float":
+            env[pn] = ("(p_rnum, p_rk)", "ratio")
+            params += ["(p_rnum : nat)", "(p_rk : nat)"]
+            return True
+        return False
+
+    def ctor_init(self, F, member, c, env):
+        if member == "m_dynamic_age_ratio":
+            if c["k"] == "ref" and c["n"] in env and env[c["n"]][1] == "ratio":
+                F["dl_rnum"], F["dl_rk"] = "p_rnum", "p_rk"
+                return
+            raise Unsupported("initialiser of m_dynamic_age_ratio")
+        return super().ctor_init(F, member, c, env)
+
     COQTY = dict(cpp2coq.Tr.COQTY, mmit="option nat", optvaluse="option (V * nat)")
 
     # ---- types
